@@ -11,7 +11,8 @@
                       leads to an NDEF TLV whose tag/length bytes lie in the data area and are not reserved (3-byte
                       length field included when the capacity allows >= 255 bytes); reserved ranges anywhere else. *)
 From Coq Require Import ZArith List Bool.
-From NV Require Import Base.Result Base.Bytes Model.TlvMem Model.T2T Proofs.TlvLib Proofs.T2TWrite.
+From NV Require Import Base.Result Base.Bytes Base.PyPrims Model.TlvMem Model.T2T Model.T1T Gen.TlvK
+  Proofs.TlvLib Proofs.T2TWrite Proofs.T1T Bridge.TlvK.
 Import ListNotations.
 Open Scope Z_scope.
 
@@ -45,3 +46,52 @@ Example C01_t2_nonvacuous :
   t2_write ex_t2 [] = (Ok tt, []).
 Proof. split; [vm_compute; reflexivity|]. split; [vm_compute; reflexivity|].
   split; [apply bytes_okb_spec; vm_compute; reflexivity|]. split; vm_compute; reflexivity. Qed.
+
+(* ---------------------------------------------------------------- Type 1 (hr0 = header ROM byte 0: 11h static
+   memory written byte-wise, 12h dynamic memory written in 8 byte blocks) *)
+Theorem C01_t1_write_read : forall hr0 m d cap, t1_wf_layout hr0 m -> bytes_ok d -> t1_capacity hr0 m = Some cap -> len d <= cap ->
+  let m' := apply_ws m (snd (t1_write hr0 m d)) in
+  fst (t1_write hr0 m d) = Ok tt /\ t1_fresh hr0 m' = Msg d /\ t1_capacity hr0 m' = Some cap /\ len m' = len m.
+Proof. exact t1_write_read. Qed.
+Print Assumptions C01_t1_write_read.
+
+Theorem C01_t1_capacity_sound : forall hr0 m L, t1_wf_layout hr0 m -> t1_layout hr0 m = Some L ->
+  l_cap L <= room (t1_free_after_tag L).
+Proof. exact t1_capacity_sound. Qed.
+Print Assumptions C01_t1_capacity_sound.
+
+Theorem C01_t1_oversize_rejected : forall hr0 m d cap, t1_capacity hr0 m = Some cap -> cap < len d ->
+  (exists L, t1_layout hr0 m = Some L /\ l_wr L = true) -> t1_write hr0 m d = (Err ValueError, []).
+Proof. exact t1_oversize_rejected. Qed.
+Print Assumptions C01_t1_oversize_rejected.
+
+(* non-vacuity: a static tag (120 bytes) with a NULL TLV in front of the NDEF TLV, and a dynamic tag (512 bytes) with
+   the lock-control / memory-control TLVs Topaz-512 is formatted with *)
+Definition ex_t1s : list Z := [1;2;3;4;5;6;7;0; 225;16;14;0; 0; 3;0] ++ repeat 0 105.
+Definition ex_t1d : list Z := [1;2;3;4;5;6;7;0; 225;16;63;0; 1;3;242;48;51; 2;3;240;2;3; 3;0] ++ repeat 0 488.
+Example C01_t1_nonvacuous :
+  t1_wf_layout 17 ex_t1s /\ t1_capacity 17 ex_t1s = Some 89 /\
+  t1_fresh 17 (apply_ws ex_t1s (snd (t1_write 17 ex_t1s [209;1;0]))) = Msg [209;1;0] /\
+  t1_wf_layout 18 ex_t1d /\ t1_capacity 18 ex_t1d = Some 462 /\
+  t1_fresh 18 (apply_ws ex_t1d (snd (t1_write 18 ex_t1d (repeat 7 300)))) = Msg (repeat 7 300).
+Proof. repeat split; vm_compute; reflexivity. Qed.
+
+(* ---------------------------------------------------------------- tie: the kernels regenerated from tt1.py / tt2.py on
+   this run (get_lock_byte_range, get_rsvd_byte_range, the range end and the adjustment of get_capacity) are the
+   functions the models use *)
+Theorem C01_bridge_lock_range : forall d0 d1 d2 rest,
+  (gen_t2_lock_from (d0 :: d1 :: d2 :: rest), gen_t2_lock_to (d0 :: d1 :: d2 :: rest)) = lock_byte_range d0 d1 d2 /\
+  (gen_t1_lock_from (d0 :: d1 :: d2 :: rest), gen_t1_lock_to (d0 :: d1 :: d2 :: rest)) = lock_byte_range d0 d1 d2.
+Proof. intros. split; [apply bridge_t2_lock | apply bridge_t1_lock]. Qed.
+Print Assumptions C01_bridge_lock_range.
+Theorem C01_bridge_rsvd_range : forall d0 d1 d2 rest,
+  (gen_t2_rsvd_from (d0 :: d1 :: d2 :: rest), gen_t2_rsvd_to (d0 :: d1 :: d2 :: rest)) = rsvd_byte_range d0 d1 d2 /\
+  (gen_t1_rsvd_from (d0 :: d1 :: d2 :: rest), gen_t1_rsvd_to (d0 :: d1 :: d2 :: rest)) = rsvd_byte_range d0 d1 d2.
+Proof. intros. split; [apply bridge_t2_rsvd | apply bridge_t1_rsvd]. Qed.
+Print Assumptions C01_bridge_rsvd_range.
+Theorem C01_bridge_capacity : forall size off skip,
+  get_capacity (gen_t2_cap_end size) off skip = gen_t2_cap_adjust (count_free skip off (Z.to_nat (gen_t2_cap_end size - off))) /\
+  get_capacity (gen_t1_cap_end size) off skip = gen_t1_cap_adjust (count_free skip off (Z.to_nat (gen_t1_cap_end size - off))) /\
+  gen_t2_cap_end (size * 8) = size * 8 + 16 /\ gen_t1_cap_end size = size.
+Proof. intros. split; [apply bridge_t2_capacity|]. split; [apply bridge_t1_capacity|]. split; reflexivity. Qed.
+Print Assumptions C01_bridge_capacity.
